@@ -516,4 +516,9 @@ func (c *Cap) decode(d *decoder) {
 	c.center.Y = d.readFloat64()
 	c.center.Z = d.readFloat64()
 	c.radius = s1.ChordAngle(d.readFloat64())
+	if d.err == nil && !c.IsValid() {
+		// A center that is not a unit vector or a radius above 180 degrees;
+		// RegionCoverer.InteriorCovering of such a cap does not terminate.
+		d.err = fmt.Errorf("invalid cap (center %v, radius %v)", c.center, float64(c.radius))
+	}
 }
